@@ -338,6 +338,11 @@ def run_check(fn):
     except subprocess.TimeoutExpired as ex:
         log("TOOL-ERROR: timeout " + str(ex))
         sys.exit(2)
+    except Exception:
+        # a bug of the machinery is a tool error, never a verdict about the code under test
+        import traceback
+        log("TOOL-ERROR: unexpected exception in the check itself\n" + traceback.format_exc())
+        sys.exit(2)
     sys.exit(code)
 
 
